@@ -141,7 +141,7 @@ TRACE_SW = "AllOff"
 
 def trace_consts():
     return {"Match": tlc.to_tla({k: set(v) for k, v in sdenv.match_table(FLTS, SVCS).items()}),
-            "Cfg": '[maxId |-> 65535, watch0 |-> [x \\in {"L1", "L2", "L3"} |-> {}]]',
+            "Cfg": '[maxId |-> 65535, watch0 |-> [x \\in {"L1", "L2", "L3"} |-> {}]] @@ CfgDefault',
             "Sw": TRACE_SW}
 
 
